@@ -2,7 +2,7 @@
    ever delivered.  This file only states the theorems and closes them with the
    lemmas of C03_proofs.v; see DESIGN.md section 5 (C03). *)
 From TV.Lib Require Import Base.
-From TV.Link Require Import Model Facts C03_proofs C08_proofs C14_proofs C03_flow.
+From TV.Link Require Import Model Facts Topo_proofs C03_proofs C08_proofs C14_proofs C03_flow.
 Open Scope N_scope.
 
 (* A message sent while its direction is explicitly partitioned is in no
@@ -44,6 +44,29 @@ Theorem c03_reverse_untouched : forall g l d,
   dir_view (fin (step g l (RepairOne d))) (flip d) = dir_view l (flip d).
 Proof. intros; split; [apply c03_reverse_untouched_lemma|apply c03_repair_untouched_lemma]. Qed.
 
+(* Other links are unaffected: the topology is a map of independent links.  A
+   partition/repair call (any link-level call) or a send on pair (a,b) leaves
+   the link of every other pair q exactly as it was, and on its own pair it is
+   exactly the single-link step the theorems above talk about. *)
+Theorem c03_other_links_untouched : forall t a b e q src dst id x r p,
+  (is_global e = false -> pair_eqb (pair_of a b) q = false ->
+   get_link q (tlinks (fst (tstep t (TLink a b e)))) = get_link q (tlinks t)) /\
+  (pair_eqb (pair_of src dst) q = false ->
+   get_link q (tlinks (fst (tstep t (TSend src dst id x r p)))) = get_link q (tlinks t)).
+Proof. intros. split; [apply topo_frame_link|apply topo_frame_send]. Qed.
+
+Theorem c03_topology_refines_link : forall t a b e l src dst id x r p dt q,
+  (is_global e = false -> get_link (pair_of a b) (tlinks t) = Some l ->
+   get_link (pair_of a b) (tlinks (fst (tstep t (TLink a b e)))) = Some (fin (step (tg t) l e))) /\
+  (get_link (pair_of src dst) (tlinks t) = Some l ->
+   get_link (pair_of src dst) (tlinks (fst (tstep t (TSend src dst id x r p))))
+   = Some (fin (step (tg t) l (Send (dir_of src dst) id x r p)))) /\
+  (get_link q (tlinks t) = Some l ->
+   get_link q (tlinks (fst (tstep t (TTick dt)))) = Some (fin (step (tg t) l (Tick dt)))).
+Proof.
+  intros. split; [apply topo_link_is_step|split; [apply topo_send_is_step|apply topo_tick_is_step]].
+Qed.
+
 (* Keeps flowing: with fail_rate 0 (no random coin comes up), a message sent on
    a direction that is not explicitly partitioned at that moment -- in
    particular after an explicit repair -- and not partitioned while in flight,
@@ -83,5 +106,7 @@ Print Assumptions c03_never_delivered.
 Print Assumptions c03_inflight_dropped.
 Print Assumptions c03_state_invariant.
 Print Assumptions c03_reverse_untouched.
+Print Assumptions c03_other_links_untouched.
+Print Assumptions c03_topology_refines_link.
 Print Assumptions c03_flows_again.
 Print Assumptions c03_nonvacuous.
